@@ -120,6 +120,52 @@ def Cache.parse (buf : Bytes) : Except CacheErr Cache :=
       else .ok ⟨nc, nm, nb, sb, classes, members, byParams, strings⟩
   | _ => .error .invalidHeader
 
+/-- `ProguardCache::parse` of a buffer whose first byte lies at an address ≡ `a` (mod 8) — what
+    a reader sees when the file sits inside a larger buffer.  `Header::ref_from_prefix` wants a
+    4-aligned address (else `InvalidHeader`); `watto::align_to(rest, 8)` pads relative to the
+    *address*, not to the file offset, so at `a ≡ 4` every section is looked for 4 bytes later.
+    `Cache.parse = Cache.parseAt 0` (`parseAt_zero`). -/
+def Cache.parseAt (a : Nat) (buf : Bytes) : Except CacheErr Cache :=
+  if a % 4 != 0 then .error .invalidHeader else
+  match rdFields 6 buf with
+  | some ([magic, version, nc, nm, nb, sb], rest) =>
+    if magic == magicFlipped then .error .wrongEndianness
+    else if magic != magicPRGC then .error .wrongFormat
+    else if version != cacheVersion then .error .wrongVersion
+    else
+      match alignSkip (a + 24) rest with
+      | none => .error .invalidClasses
+      | some rest =>
+      if rest.length < 28 * nc then .error .invalidClasses else
+      match rdClasses nc rest with
+      | none => .error .invalidClasses
+      | some (classes, rest) =>
+      let off := a + 24 + pad8 (a + 24) + 28 * nc
+      match alignSkip off rest with
+      | none => .error .invalidMembers
+      | some rest =>
+      let off := off + pad8 off
+      if rest.length < 36 * nm then .error .invalidMembers else
+      match rdMembers nm rest with
+      | none => .error .invalidMembers
+      | some (members, rest) =>
+      let off := off + 36 * nm
+      match alignSkip off rest with
+      | none => .error .invalidMembers
+      | some rest =>
+      let off := off + pad8 off
+      if rest.length < 36 * nb then .error .invalidMembers else
+      match rdMembers nb rest with
+      | none => .error .invalidMembers
+      | some (byParams, rest) =>
+      let off := off + 36 * nb
+      match alignSkip off rest with
+      | none => .error (.unexpectedStringBytes sb 0)
+      | some strings =>
+      if strings.length < sb then .error (.unexpectedStringBytes sb strings.length)
+      else .ok ⟨nc, nm, nb, sb, classes, members, byParams, strings⟩
+  | _ => .error .invalidHeader
+
 /-! ### strings -/
 
 /-- `leb128::read::unsigned` (the value is reduced mod 2^64, as `u64 |= low << shift` does) -/
